@@ -29,10 +29,10 @@ PROPERTY = {
     "kani": [
         Harness("c02_allocate_small8", "C02.stream_id_set.allocate.small8", "BOUNDED",
                 "real StreamIdSet::allocate as compiled (cross-check of the extractor's loop desugaring used by the Verus proof): complete contract (minimum free id, exactly its bit set, others unchanged, None iff full) on a fully symbolic bitmap",
-                bound="8-word bitmap (512 ids) instead of 512 words; all 2^512 states", functions=[F + "StreamIdSet::allocate"]),
+                bound="8-word bitmap (512 ids) instead of 512 words; all 2^512 states", functions=[F + "StreamIdSet::allocate"], backed_by="C02.StreamIdSet.allocate.contract"),
     ] + [Harness(f"c02_allocate_512_k{k:03d}", f"C02.stream_id_set.allocate.512.k{k}", "BOUNDED",
                  f"real 512-word bitmap, words < {k} full, word {k} symbolic, later words zero: lowest free id returned, only its bit set, no i16 overflow",
-                 bound="state shape restricted (later words concrete)", tier="thorough", functions=[F + "StreamIdSet::allocate"]) for k in (0, 255, 511)] + [
+                 bound="state shape restricted (later words concrete)", tier="thorough", functions=[F + "StreamIdSet::allocate"], backed_by="C02.StreamIdSet.allocate.contract") for k in (0, 255, 511)] + [
         Harness("c02_allocate_full", "C02.stream_id_set.allocate.full", "PROVED-C", "all 32768 ids used => None, state unchanged (the unique full state)", tier="thorough", functions=[F + "StreamIdSet::allocate"]),
         Harness("c02_new_shape", "C02.stream_id_set.new.shape", "PROVED-C", "StreamIdSet::new: 512 zero words", functions=[F + "StreamIdSet::new"]),
         Harness("c02_canary_allocate_zero", "C02.kani.canary", "PROVED-C", "a false claim must be refuted", carries=False, canary=True),
